@@ -1336,11 +1336,11 @@ pub fn main(tier: Tier, seed: u64) -> Report {
     if !regress.is_empty() {
         runner::run_cases(&mut rep, "regress", regress, run_case);
     }
-    runner::run_generated(&mut rep, "conv", tier.pick(4000, 150_000), || strategy(tier), run_case);
+    runner::run_generated(&mut rep, "conv", tier.pick(40_000, 150_000), || strategy(tier), run_case);
     runner::run_generated(
         &mut rep,
         "io",
-        tier.pick(400, 10_000),
+        tier.pick(4000, 10_000),
         io_strategy,
         run_io,
     );
